@@ -147,6 +147,30 @@ Fixpoint try_loop (ex : node -> rt -> res) (ts : sig) (any : bool)
       | r => r end
   end.
 
+(** loops.rs do_ in the case comp_sig.args = comp_sig.outputs (nothing preserved, nothing collected):
+    copy the condition's arguments, run the condition, pop the boolean; if it is 1 run the body and
+    go round again.  [k] bounds the number of rounds (out of fuel beyond it). *)
+Fixpoint do_loop (cond body : rt -> res) (cc : nat) (k : nat) (s : rt) {struct k} : res :=
+  match k with
+  | O => OOF
+  | S k' =>
+      if negb (need cc s) then Err false s else
+      match cond (set_stk s (firstn cc (stk s) ++ stk s)) with
+      | Ok s2 =>
+          match stk s2 with
+          | [] => Err false s2
+          | SInt z :: rest =>
+              if Z.eqb z 0 then Ok (set_stk s2 rest)
+              else if Z.eqb z 1 then
+                match body (set_stk s2 rest) with
+                | Ok s3 => do_loop cond body cc k' s3
+                | r => r end
+              else Err false (set_stk s2 rest)
+          | SOpq _ :: _ => Unk
+          end
+      | r => r end
+  end.
+
 (** both with a numeric subscript (run_prim.rs ImplPrimitive::BothImpl, no side): the operand runs k
     times, first on the deepest group of [a] arguments, then on the next one above it, ... ; the
     groups above the deepest are popped before the first run *)
@@ -406,6 +430,13 @@ Section Exec.
             match iter_ao mk sg with
             | Some (na, no) => iter_exec_nn (without_fill_body (ex f)) (mk_tag mk) na no (sa sg) (so sg) s
             | None => Unk end
+        | MDo, [(sb, body); (sc, cond)] =>
+            let cc := sa sc - (so sc - 1) in
+            let cs := sig2 (sa sc) ((so sc + cc) - 1) in
+            let comp := sig_compose sb cs in
+            (* values preserved for / collected from the body are outside the model *)
+            if Nat.eqb (so sc) 0 || negb (Nat.eqb (sa comp) (so comp)) then Unk else
+            do_loop (ex cond) (ex body) cc fuel s
         | MBothImpl reused k, [(sg, f)] =>
             (* the sided forms (reused > 0) are outside the model *)
             if negb (Nat.eqb reused 0) then Unk else
